@@ -245,13 +245,12 @@ Section Reader.
         do (ks, r3) <- read_kids f (if (len =? -1)%Z then None else Some (Z.to_N len)) r2 [];
         Ok (Pkt i (concat (map bytes_of ks)) ks, r3)
       else if (MaxPacketLengthBytes <? len)%Z then Err
+      else if N.of_nat (length r2) <? Z.to_N len then Err   (* unexpected EOF *)
       else
         let n := Z.to_nat len in
-        if (length r2 <? n)%nat then Err              (* unexpected EOF *)
-        else
-          let content := firstn n r2 in
-          if (cls i =? 0) && negb (content_ok (tag i) content) then Err
-          else Ok (Pkt i content [], skipn n r2)
+        let content := firstn n r2 in
+        if (cls i =? 0) && negb (content_ok (tag i) content) then Err
+        else Ok (Pkt i content [], skipn n r2)
     end
   (* the child loop: [remaining] = Some (length - contentRead) or None when
      indefinite; [acc] children read so far, reversed *)
